@@ -262,6 +262,8 @@ def jobs(tier):
                'params': {'inputs': ['sub', 'b.md'], 'recursive': False, 'cwd': b'/', 'base': b'w'}, 'split': 16})
     for mode in ('Clean', 'Verify'):
         js.append({'name': 'select mode=%s' % mode, 'harness': (H, 'h_select'), 'params': {'inputs': ['.', 'c'], 'recursive': False, 'mode': mode}, 'split': 16})
+    from . import project
+    js += project.jobs('C11', tier)
     return js
 
 
